@@ -353,6 +353,15 @@ func (h *History) SchedBG(d *Decoded) (string, error) {
 	}
 	emitAcks(len(evs))
 	flushPre()
+	if n := len(h.Steps); n > 0 && h.Steps[n-1].Kind == "shutdown" {
+		// Shutdown(): the loop's shutdown branch = FlushToWAL (nothing queued) + CreateCheckpoint; its
+		// checkpoint, if it wrote one, is the last group of the trace
+		if m := len(out); m > 0 && out[m-1] == "(SCheckpoint false)" {
+			out[m-1] = "(SShutdown [])"
+		} else {
+			out = append(out, "(SShutdown [])")
+		}
+	}
 	return cq.List(out), nil
 }
 
